@@ -192,7 +192,14 @@ class Replayer:
         want = self.queries if queries is None else queries
         if self.late and not self._final:
             want = False
-        if want and (self._final or op["op"] in ("new", "copy") or self.rng.random() < self.query_prob):
+        if self.query_prob < 0.5:
+            # sparse traces: a query after every third call only, so that exactly two mutations lie between
+            # two observations (remove + add, add + remove ...)
+            self._tick = getattr(self, "_tick", 0) + 1
+            roll = (self._tick % 3 == 0)
+        else:
+            roll = self.rng.random() < self.query_prob
+        if want and (self._final or op["op"] in ("new", "copy") or roll):
             ev["q"] = self.b.queries(self.objs[oid], self.universe, full=self.full, cc=self.cc)
         self.events.append(ev)
         return ev
